@@ -345,8 +345,10 @@ class SpatialTransform(DeviceProperty, Module, metaclass=ABCMeta):
             # Displacement field with domain different from output domain
             # - Use F.grid_sample() to resample displacement field and adjust vectors.
             if grid != self.grid() or align_corners != self.align_corners():
-                flow = FlowFields(data, grid=self.grid().reshape(data.shape[2:]))
+                flow = FlowFields(data, grid=self.grid().reshape(data.shape[2:]), axes=self.axes())
                 flow = flow.sample(grid)
+                # Vectors with respect to the normalized cube of the output grid (cf. linear transformation)
+                flow = flow.axes(Axes.from_grid(grid))
                 data = flow.tensor()
             # Displacement field with same domain as output grid, but differing size
             # - Use F.interpolate() to resize displacement field.
